@@ -5,7 +5,8 @@ parser visitor) and to the Lean model of the lexer, of the precedence parser and
 side conditions (Rtamt/Front/*.lean):
    `valid`   texts rendered from random formulas under random spelling choices (must be accepted);
    `mutant`  one-character / one-token edits of valid texts: deletion, duplication, illegal characters,
-             truncation, trailing garbage, swapped characters;
+             truncation, trailing garbage, swapped characters; interval edits; other spellings of a literal; an identifier
+             with a field (`a.real`, `a.`, ... - also on a name that is declared nowhere: `zz.` is the float signal zz);
    `soup`    random token sequences.
 Four further streams carry constructs the model of the front end does not cover (module imports, `@topic` annotations, the
 initial-value expression of a declaration - which the model parses but does not check -, nesting beyond the interpreter's
@@ -14,7 +15,9 @@ recursion limit). They are judged by the part of the property that needs no mode
              arguments, a name the module does not have, a type that was not imported) and their use in the assertion;
    `topic`   `@topic(x, t)` for variables and constants declared through the API or in the text (before / after the annotation)
              and for undeclared names;
-   `deep`    1000-3000 nested prefix operators / parentheses / function calls / left-deep operator chains;
+   `deep`    1000-3000 nested prefix operators / parentheses / function calls / left-deep operator chains (6 texts in the quick
+             tier; the thorough tier adds 400-10000 levels, bounded operators, `and` / `until` chains, right-nested
+             implications and thousands of assertions, which take up to a few seconds each);
    `place`   the same expression - well formed, or with an interval edit, a field access, an undeclared bound constant, an
              undeclared identifier - as an assertion `out = E;` (also checked against the model) and as the initial value of a
              declaration `[input|output] float v = E`: parse() must give the same verdict in both places (the language does not
